@@ -3,6 +3,9 @@ package proto
 import (
 	"encoding/json"
 	"fmt"
+	"os"
+	"strconv"
+	"strings"
 	"sync"
 
 	"verif/props/core"
@@ -78,6 +81,14 @@ func (f *Family) runItem(it *Item, prefix []int, sig []uint32, trace bool) *Resu
 	return RunScns(vsched.Config{ClockDeviation: f.Clock, Prefix: prefix, PrefixSig: sig, Trace: trace, DelayBounded: len(it.Also) > 0}, f.scns(it)...)
 }
 
+func firstLines(s string, n int) string {
+	out := ""
+	for _, l := range strings.SplitN(s, "\n", n+1)[:min(n, strings.Count(s, "\n"))] {
+		out += l + "\n"
+	}
+	return out
+}
+
 // RunPlain executes an item once on the default schedule (used by oracles that need a reference run).
 func (f *Family) RunPlain(it *Item) *Result { return f.runItem(it, nil, nil, false) }
 
@@ -94,13 +105,53 @@ func (f *Family) Run(tier string, idx int, r *core.ScnResult) {
 	r.Nontrivial = f.Nontrivial == nil || f.Nontrivial(it)
 	var last *Result
 	e := &vsched.Explorer{Bound: bound}
+	debugDiv := os.Getenv("VERIF_DEBUG_DIVERGE") != ""
+	type rec struct {
+		choices []int
+		trace   []string
+		wire    string
+	}
+	var recs []rec
 	e.RunOne = func(prefix []int, sig []uint32) *vsched.Exec {
-		last = f.runItem(it, prefix, sig, false)
+		last = f.runItem(it, prefix, sig, debugDiv)
+		if debugDiv {
+			if last.X.Outcome == vsched.Diverged {
+				fmt.Fprintf(os.Stderr, "DIVERGED at %d, prefix length %d\n", last.X.DivergeAt, len(prefix))
+				mine := last.X.TraceLog
+				for _, rc := range recs {
+					if len(rc.choices) < len(prefix)-1 {
+						continue
+					}
+					same := true
+					for k := 0; k < len(prefix)-1; k++ {
+						if rc.choices[k] != prefix[k] {
+							same = false
+							break
+						}
+					}
+					if !same {
+						continue
+					}
+					i := 0
+					for i < len(rc.trace) && i < len(mine) && rc.trace[i] == mine[i] {
+						i++
+					}
+					fmt.Fprintf(os.Stderr, "parent found (choices %d long); first differing step %d of %d/%d\n", len(rc.choices), i, len(rc.trace), len(mine))
+					fmt.Fprintf(os.Stderr, "PARENT WIRE:\n%s\nREPLAY WIRE:\n%s\n", firstLines(rc.wire, 14), firstLines(last.WireLog(), 14))
+					for j := i - 8; j < i+3; j++ {
+						if j >= 0 && j < len(mine) && j < len(rc.trace) {
+							fmt.Fprintf(os.Stderr, "    [%d] parent: %-60s | replay: %s\n", j, rc.trace[j], mine[j])
+						}
+					}
+				}
+			}
+			recs = append(recs, rec{last.X.Choices(), last.X.TraceLog, firstLines(last.WireLog(), 14)})
+		}
 		return last.X
 	}
 	e.Check = func(x *vsched.Exec, cost int) bool {
 		if x.Outcome == vsched.Diverged {
-			r.Infra = fmt.Sprintf("item %d (%s): replay diverged at point %d", idx, it.Class, x.DivergeAt)
+			r.Infra = fmt.Sprintf("item %d (%s): replay diverged at point %d; prefix %v", idx, it.Class, x.DivergeAt, x.Prefix)
 			return false
 		}
 		var issues []Issue
@@ -177,6 +228,41 @@ func (f *Family) Replay(scn json.RawMessage, choices []int) (string, bool) {
 	}
 	res := f.runItem(&it, choices, nil, true)
 	s := fmt.Sprintf("class: %s\nscenario: %s\nchoices: %v\noutcome=%s steps=%d virtual=%s\n%s\nwire:\n%s", it.Class, scn, choices, res.X.Outcome, res.X.Steps, res.X.Virtual, res.Summary(), res.WireLog())
+	if n, _ := strconv.Atoi(os.Getenv("VERIF_REPEAT")); n > 0 {
+		// determinism probe: the same schedule, n times in this process
+		ref := res
+		for k := 0; k < n; k++ {
+			again := f.runItem(&it, choices, nil, true)
+			a, b := ref.X.Sigs(), again.X.Sigs()
+			same := len(a) == len(b)
+			for i := 0; same && i < len(a); i++ {
+				same = a[i] == b[i]
+			}
+			if !same {
+				s += fmt.Sprintf("REPEAT %d DIFFERS: %d vs %d points\n", k, len(a), len(b))
+				for i := 0; i < len(ref.X.TraceLog) && i < len(again.X.TraceLog); i++ {
+					if ref.X.TraceLog[i] != again.X.TraceLog[i] {
+						s += fmt.Sprintf("first differing step %d:\n  ref:   %s\n  again: %s\n", i, ref.X.TraceLog[i], again.X.TraceLog[i])
+						for j := i - 6; j < i+3 && j < len(ref.X.TraceLog) && j < len(again.X.TraceLog); j++ {
+							if j >= 0 {
+								s += fmt.Sprintf("   [%d] %s   ||   %s\n", j, ref.X.TraceLog[j], again.X.TraceLog[j])
+							}
+						}
+						break
+					}
+				}
+				break
+			}
+		}
+	}
+	if os.Getenv("VERIF_TRACE") != "" {
+		for i, l := range res.X.TraceLog {
+			s += fmt.Sprintf("T%04d %s\n", i, l)
+		}
+		for i, p := range res.X.Points {
+			s += fmt.Sprintf("P%03d kind=%c n=%d chosen=%d sig=%08x label=%s\n", i, p.Kind, p.N, p.Chosen, p.Sig, p.Label)
+		}
+	}
 	var issues []Issue
 	if fi := Fatal(res); fi != nil && !f.NoFatalShortcut {
 		issues = append(issues, *fi)
